@@ -11,6 +11,7 @@
    numbers, [mem x q] membership in a range set (proofs/RangeSetP.v). *)
 From AQ Require Import lib.Base model.Codec model.Varint model.RangeSet model.AckFrame gen.C12Consts model.AckQueue
   proofs.RangeSetP proofs.AckQueueP proofs.AckQueueP2 proofs.AckQueueP3.
+From AQ Require Import gen.C12RecvOrder model.RecvAck proofs.RecvAckP.
 
 (* ack_sound, queue: the ack_queue only ever holds recorded packet numbers *)
 Theorem ack_sound_queue : forall a s, reach a s -> forall x, mem x (aq s) -> In x (rcvd s).
@@ -161,3 +162,107 @@ Theorem ack_timely_cap_refuted : exists ops L t, reach_run (init true) ops /\
   (forall q h, In (q, h) (frames s) -> ~ mem L q) /\ Zlen (frames s) = 1.
 Proof. exact ack_timely_cap_refuted_l. Qed.
 Print Assumptions ack_timely_cap_refuted.
+
+(* ---- the receive path composed with the bookkeeping (model/RecvAck.v, proofs/RecvAckP.v).
+   One received packet = decryption verdict (oracle: KeyUnavailableError / CryptoError / plaintext with a packet number and
+   the reserved bits) -> expected_packet_number -> the payload as a sequence of frame effects, among them FxAck h (an ACK of
+   one of OUR ACK frames: ack_queue.subtract(0, h + 1) runs DURING payload processing), handshake completion, discards,
+   CONNECTION_CLOSE, a connection error -> the gate -> the recording tail, in the order of the code; [spc c i] is space i
+   (Initial / Handshake / application) of connection state c.  [creach c]: c is reachable from a fresh connection by ANY
+   sequence of such packets (any verdict, any packet number in [0, 2^62) incl. duplicates and old ones, any effects), of
+   sends in any space at any time with any room / pacer verdict, completions, discards, close(), _initialize(). *)
+
+(* the order of the model IS the order of the source: RECV_ORDER is generated from QuicConnection.receive_datagram by
+   tools/gen/c12_recv_order.py (ast, fails closed).  Moving `ack_queue.add` (or the ack_at assignments, or the largest
+   update) relative to the payload handling, or changing a guard of the tail, breaks this theorem *)
+Theorem recv_order_as_modelled : RECV_ORDER = source_order code_order.
+Proof. exact recv_order_as_modelled_l. Qed.
+Print Assumptions recv_order_as_modelled.
+
+(* _on_ack_delivery prunes subtract(0, highest_acked + 1); _write_ack_frame registers (space, largest_received_packet) and
+   runs cap loop, start_frame, push_ack_frame, ack_at = None in this order *)
+Theorem ack_handler_as_modelled : HANDLER_PRUNE_OK = true /\ HANDLER_ARGS_OK = true /\ WRITER_ORDER = [1; 2; 3; 4].
+Proof. exact ack_handler_as_modelled_l. Qed.
+Print Assumptions ack_handler_as_modelled.
+
+(* (a) in every reachable state of a live connection an armed ACK timer has something to report, in every space ... *)
+Theorem ack_at_implies_queue_nonempty : forall c, creach c -> forall i, closing (spc c i) = false ->
+  ack_at (spc c i) <> None -> aq (spc c i) <> [].
+Proof. exact ack_at_implies_queue_nonempty_l. Qed.
+Print Assumptions ack_at_implies_queue_nonempty.
+
+(* ... hence _write_ack_frame never meets an empty RangeSet (`rangeset[-1]`: IndexError), nor any other exception: NO
+   premise about the queue, the frames written or the acknowledgements received *)
+Theorem ack_writer_never_raises_composed : forall c i t delay room blocked, creach c -> 0 <= delay < 2 ^ 62 ->
+  forall k, fst (send (spc c i) t delay room blocked) <> SExn k.
+Proof. exact ack_writer_never_raises_composed_l. Qed.
+Print Assumptions ack_writer_never_raises_composed.
+
+(* processing a packet never raises either (subtract's assertion in _on_ack_delivery) *)
+Theorem recv_packet_total : forall c i v fs t d, creach c -> exists c', recv_packet c i v fs t d = Ok c'.
+Proof. exact recv_packet_total_l. Qed.
+Print Assumptions recv_packet_total.
+
+(* the guard `closing = false` is needed (and harmless: a closing connection never reaches the ACK writer): a connection
+   error after an in-payload pruning leaves ack_at set over an empty queue *)
+Theorem ack_at_nonempty_closing_refuted : exists ops i, wf_cops ops /\
+  let c := crun rinit ops in
+  closing (spc c i) = true /\ ack_at (spc c i) <> None /\ aq (spc c i) = [] /\
+  forall t delay room blocked, fst (send (spc c i) t delay room blocked) = SNothing 0.
+Proof. exact ack_at_nonempty_closing_refuted_l. Qed.
+Print Assumptions ack_at_nonempty_closing_refuted.
+
+(* (b) a packet number x enters the ack_queue of space j only through a packet of space j that decrypted to x with clear
+   reserved bits on a live connection and whose payload was processed to the end without a connection error, without
+   closing the connection and without discarding the space; it is added to the queue AS LEFT BY the payload, i.e. after
+   every in-payload pruning ... *)
+Theorem recorded_only_after_processing : forall c o j x, creach c ->
+  mem x (aq (spc (snd (cstep c o)) j)) -> ~ mem x (aq (spc c j)) ->
+  exists fs t d c2 elic,
+    o = CPacket j (VPlain x false) fs t d /\ closing (spc c j) = false /\
+    payload_received (pre_payload c j x t) j fs = Ok (c2, elic, false) /\
+    closing (spc c2 j) = false /\ disc (spc c2 j) = false /\
+    aq (spc (snd (cstep c o)) j) = add x (x + 1) (aq (spc c2 j)).
+Proof. exact recorded_only_after_processing_l. Qed.
+Print Assumptions recorded_only_after_processing.
+
+(* ... so an acknowledgement inside the payload can never remove the number of the packet that carries it *)
+Theorem carrier_survives_prunes : forall c i pn fs t d c2 elic, creach c -> pn_ok pn -> closing (spc c i) = false ->
+  payload_received (pre_payload c i pn t) i fs = Ok (c2, elic, false) ->
+  closing (spc c2 i) = false -> disc (spc c2 i) = false ->
+  exists c', recv_packet c i (VPlain pn false) fs t d = Ok c' /\ mem pn (aq (spc c' i)) /\
+             (elic = true -> ack_at (spc c' i) <> None).
+Proof. exact carrier_survives_prunes_l. Qed.
+Print Assumptions carrier_survives_prunes.
+
+(* (c) REFUTED for the variant [first_order] = "ack_queue.add(packet_number) right after decryption, before the payload"
+   (seeded/C05/seed3; the same interpreter, the two events swapped): a packet re-using number 10 that acknowledges our ACK of
+   10 and carries a PING leaves ack_at set over an empty queue; the next send raises IndexError, and so does every later
+   one.  The same sequence in the order of the code leaves {10} queued and the send writes a frame.  (a) really depends
+   on the order that recv_order_as_modelled ties to the source. *)
+Theorem record_before_payload_refuted : exists ops i, wf_cops ops /\
+  (let c := crun_ord first_order rinit ops in
+   closing (spc c i) = false /\ ack_at (spc c i) <> None /\ aq (spc c i) = [] /\
+   fst (cstep_first c (CSend i 2010 0 1200 false)) = CSent (SExn E_INDEX) /\
+   (let c1 := snd (cstep_first c (CSend i 2010 0 1200 false)) in ack_at (spc c1 i) <> None /\ aq (spc c1 i) = [])) /\
+  (let c := crun rinit ops in
+   aq (spc c i) = [(10, 11)] /\ exists bytes q, fst (cstep c (CSend i 2010 0 1200 false)) = CSent (SFrame bytes q)).
+Proof. exact record_before_payload_refuted_l. Qed.
+Print Assumptions record_before_payload_refuted.
+
+(* the atomic op of model/AckQueue.v is the composed packet: for a payload that touches the acknowledgement state only by
+   acknowledging ACK frames that were written (fx_plain, known_handler: the premise of [reach]), the state of the packet's
+   space after recv_packet is exactly AckQueue.recv with dels = the acknowledgements in payload order and elic / ok as the
+   frame loop computes them; the other spaces only learn about a close.  (So the theorems above stated on AckQueue.step
+   speak about the same per-space transitions as the composed model.) *)
+Theorem recv_packet_refines : forall c i pn fs t d, fx_plain fs = true ->
+  (forall h, In h (fx_acks fs) -> known_handler (spc c i) h = true) -> closing (spc c i) = false ->
+  let elic := fx_elic fs false in
+  let ok := negb (fx_raised fs false) in
+  match recv (spc c i) pn elic t d (fx_acks fs) ok with
+  | Ok s' => exists c', recv_packet c i (VPlain pn false) fs t d = Ok c' /\ spc c' i = s' /\
+               forall j, j <> i -> spc c' j = if ok then spc c j else set_closing (spc c j)
+  | Err k => recv_packet c i (VPlain pn false) fs t d = Err k
+  end.
+Proof. exact recv_packet_refines_l. Qed.
+Print Assumptions recv_packet_refines.
